@@ -19,7 +19,9 @@ func DefaultNumGoroutines() int {
 	// the number of virtual cores, which GOMAXPROCS
 	// is. Hyperthreading doesn't actually help our workload, and
 	// indeed it hurts it a bit.
-	if physicalCores < numGoroutines {
+	// PhysicalCores is 0 when it cannot be detected (unknown CPU
+	// vendor, noasm builds): keep GOMAXPROCS then.
+	if physicalCores > 0 && physicalCores < numGoroutines {
 		numGoroutines = physicalCores
 	}
 	return numGoroutines
